@@ -5,7 +5,7 @@
 From Coq Require Import List Arith Permutation.
 From PTN Require Import Tree.RTree Tree.RTreeProofs Tree.Nav Tree.NavProofs
      Tree.UpdatePath Tree.UpdatePathProofs Tree.CachePath Tree.CachePathProofs Tree.Enum Tree.EnumProofs
-     Tree.Crossings.
+     Tree.Crossings Tree.EdgeBlock Tree.Jumps.
 Import ListNotations.
 
 (* ---- linearise: permutation of the nodes, children before parents, root last -------- *)
@@ -148,6 +148,12 @@ Theorem C17_update_path_subtree_block : forall t p c, NoDup (ids t) -> In (p, c)
       (forall x, In x l2 -> In x (ids s)) /\ (forall x, In x l1 \/ In x l3 -> ~ In x (ids s)).
 Proof. exact update_path_subtree_block. Qed.
 Print Assumptions C17_update_path_subtree_block.
+
+(* every non-adjacent jump of the update path lands on a leaf (a node without children) *)
+Theorem C17_update_path_jumps : forall t, NoDup (ids t) ->
+  exists up, update_path t = Some up /\ chain (fun a b => adjacent t a b \/ children_ids t b = []) up.
+Proof. exact update_path_jumps. Qed.
+Print Assumptions C17_update_path_jumps.
 
 (* ---- the initial cache ----------------------------------------------------------- *)
 (* init_cache_but_one(left_out = u): exactly one block per edge (as unordered pairs the key
